@@ -489,6 +489,7 @@ func runC03(c *Ctx) {
 			}
 		}
 	})
+	runC03Faults(r)
 	r.Require("delimited_listings", 1000)
 	r.Require("random_listings", 100)
 	r.Assume("ListOracle (15 lines) is written from the statement; the order of CommonPrefixes among themselves is not judged",
